@@ -361,46 +361,41 @@ impl Property for C10 {
             let touch = rings.iter().enumerate().any(|(i, r)| r[..r.len().saturating_sub(1)].iter().any(|v| {
                 rings.iter().enumerate().any(|(j, q)| i != j && q.windows(2).any(|w| *v != w[0] && *v != w[1] && on_segment_int(w[0], w[1], *v)))
             }));
-            // ... and, narrower: a MERGE vertex (a local right extreme of its ring, in the frame the sweep sees, at which the
-            // polygon's interior angle is reflex) lies before such a touching vertex in sweep order (x, then y). Without one no
-            // merge can be pending when the touched edge is split, and a failure is not the recorded finding.
+            // ... and, narrower, by the mechanism: when the sweep splits the touched edge E at the touching vertex t, the new
+            // right half inherits a COPY of E's bookkeeping (helper chain, pending help). That bookkeeping is only there if some
+            // vertex was processed with E as the edge directly below it, i.e. some vertex v with left(E) <= v < t in sweep order
+            // (x, then y, in the frame the sweep sees) lies strictly above the line of E. Without such a vertex the copy is
+            // harmless and a failure is not the recorded finding. (A superset of the trigger: edges between v and E are ignored.)
             let frame = |v: &C| c.xf.d4(*v);
-            let mut merges: Vec<C> = vec![];
-            for p in &polys {
-                for (ri, r) in p.rings().enumerate() {
-                    let mut q: Vec<C> = r[..r.len().saturating_sub(1)].iter().map(frame).collect();
-                    if q.len() < 3 {
-                        continue;
-                    }
-                    // walk the ring with the polygon's interior on the left: exterior counter-clockwise, holes clockwise
-                    let a2: i128 = (0..q.len()).map(|i| { let (u, w) = (q[i], q[(i + 1) % q.len()]); u.0 as i128 * w.1 as i128 - w.0 as i128 * u.1 as i128 }).sum();
-                    if (ri == 0) != (a2 > 0) {
-                        q.reverse();
-                    }
-                    let n = q.len();
-                    for k in 0..n {
-                        let (a, m, b) = (q[(k + n - 1) % n], q[k], q[(k + 1) % n]);
-                        if a < m && b < m && cross_int(a, m, b) < 0 {
-                            merges.push(m);
+            let all_vertices: Vec<C> = rings.iter().flat_map(|r| r[..r.len().saturating_sub(1)].iter().map(frame)).collect();
+            let mut stale = false;
+            for (i, r) in rings.iter().enumerate() {
+                for v in &r[..r.len().saturating_sub(1)] {
+                    for (j, q) in rings.iter().enumerate() {
+                        if i == j {
+                            continue;
+                        }
+                        for w in q.windows(2) {
+                            if *v != w[0] && *v != w[1] && on_segment_int(w[0], w[1], *v) {
+                                let (t, e0, e1) = (frame(v), frame(&w[0]), frame(&w[1]));
+                                let (el, er) = if e0 <= e1 { (e0, e1) } else { (e1, e0) };
+                                if el.0 == er.0 {
+                                    continue; // vertical in the sweep frame
+                                }
+                                if all_vertices.iter().any(|u| el <= *u && *u < t && cross_int(el, er, *u) > 0) {
+                                    stale = true;
+                                }
+                            }
                         }
                     }
                 }
             }
-            let mut touches: Vec<C> = vec![];
-            for (i, r) in rings.iter().enumerate() {
-                for v in &r[..r.len().saturating_sub(1)] {
-                    if rings.iter().enumerate().any(|(j, q)| i != j && q.windows(2).any(|w| *v != w[0] && *v != w[1] && on_segment_int(w[0], w[1], *v))) {
-                        touches.push(frame(v));
-                    }
-                }
-            }
-            let pending = touches.iter().any(|t| merges.iter().any(|m| m < t));
-            if !touch { "" } else if pending { "[ring-vertex-inside-an-edge-of-another-ring|after-a-merge-vertex]" } else { "[ring-vertex-inside-an-edge-of-another-ring]" }
+            if !touch { "" } else if stale { "[ring-vertex-inside-an-edge-of-another-ring|a-vertex-above-that-edge-before-the-touch]" } else { "[ring-vertex-inside-an-edge-of-another-ring]" }
         };
         if !mono_cls.is_empty() {
             obs.label("monotone:ring-vertex-inside-an-edge-of-another-ring");
-            if mono_cls.contains("after-a-merge-vertex") {
-                obs.label("monotone:touch-after-a-merge-vertex");
+            if mono_cls.contains("a-vertex-above-that-edge") {
+                obs.label("monotone:touched-edge-carries-bookkeeping");
             }
         }
         let mono = guard(std::panic::AssertUnwindSafe(|| match &gg {
@@ -462,7 +457,9 @@ impl Property for C10 {
                 }
             }
             Err(pn) => {
-                obs.fail(format!("monotone{mono_cls}:{tn}|panic|{}", pn.site()), format!("{} {}", pn, ctx()))
+                // (the kind of panic is part of the key: an unwrap of a chain that is no longer there is the repaired defect)
+                let kind = if pn.msg.contains("chains must finish") { "chains-must-finish" } else if pn.msg.contains("Option::unwrap") { "unwrap-none" } else { "other" };
+                obs.fail(format!("monotone{mono_cls}:{tn}|panic|{}|{kind}", pn.site()), format!("{} {}", pn, ctx()))
             }
         }
         let _ = MultiPolygon::<f64>::new(vec![]);
